@@ -83,6 +83,17 @@ class TInt(Ty):
         return self.name
 
 
+class TWord(TInt):
+    """(genukk) an unsigned machine word whose width is a parameter of the translated function: the generic `T: BitVec`
+    of the Myers matchers (`Nat` below `2^w`, `w` a Lean variable), `T::DistType`"""
+
+    def __init__(self, name, wvar):
+        self.name, self.w, self.signed = name, wvar, False
+
+    def __eq__(self, o):
+        return isinstance(o, TWord) and o.w == self.w       # `D`, `T::DistType`, `$DistType` name the same type
+
+
 class TBool(Ty):
     def lean(self):
         return "Bool"
@@ -195,7 +206,7 @@ TOKEN_RX = re.compile(r"""
   | (?P<byte>b'(?:\\.|[^\\'])')
   | (?P<str>"(?:\\.|[^"\\])*")
   | (?P<num>(?:0x[0-9a-fA-F_]+|0b[01_]+|0o[0-7_]+|[0-9][0-9_]*)(?:(?:u8|u16|u32|u64|usize|i8|i16|i32|i64|isize))?)
-  | (?P<id>[A-Za-z_][A-Za-z0-9_]*)
+  | (?P<id>\$?[A-Za-z_][A-Za-z0-9_]*)
   | (?P<life>'[A-Za-z_][A-Za-z0-9_]*)
   | (?P<op><<=|>>=|\.\.=|\.\.|::|->|=>|==|!=|<=|>=|&&|\|\||\+=|-=|\*=|/=|%=|&=|\|=|\^=|<<|>>|[-+*/%&|^!<>=.,;:(){}\[\]\#?@])
 """, re.X)
@@ -390,6 +401,24 @@ class Parser:
                 init = self.expr()
             self.expect(";")
             return N("let", x.pos, pat=pat, ty=ty, init=init)
+        if x.kind == "id" and x.text == "if" and self.at("let", 1) and self.at("Some", 2) and self.at("(", 3):
+            # (genukk) `if let Some(v) = e { .. } [else { .. }]` = `match e { Some(v) => { .. }, None => { .. } }`
+            for _ in range(4):
+                self.next()
+            v = self.ident()
+            self.expect(")")
+            self.expect("=")
+            scrut = self.expr(no_struct=True)
+            th = self.block()
+            el = N("block", x.pos, stmts=[], tail=None)
+            if self.at("else"):
+                self.next()
+                if self.at("if"):
+                    raise Unsupported("`if let … else if`", x.pos)
+                el = self.block()
+            if self.at(";"):
+                self.next()
+            return N("match", x.pos, scrut=scrut, arms=[(("some", v.text), th, x.pos), (("none", None), el, x.pos)])
         if x.kind == "id" and x.text == "if":
             e = self.if_()
             if self.at(";"):
@@ -851,11 +880,34 @@ class FnTranslator:
         self.scopes = []            # list of dict rust name -> Var
         self.used_abs = []          # abstract fns used (parameters of the generated function)
         self.loop_depth = 0
+        self.word_types = dict(unit.get("word_types", {}))      # (genukk) rust type name -> lean width variable
+        self.word_types.update(fspec.get("word_types", {}))
+        self.type_paths = dict(unit.get("type_paths", {}))      # (genukk) "T::DistType" -> type name of the spec
+        self.type_paths.update(fspec.get("type_paths", {}))
+        self.structs = dict(unit.get("structs", {}))            # (genukk) struct name -> [(field, type)]
+        self.structs.update(fspec.get("structs", {}))
+        self.signed_arith = bool(unit.get("signed_arith") or fspec.get("signed_arith"))
+        global STRUCT_ROOTS
+        STRUCT_ROOTS = set(nm for nm, ty in fspec.get("params", []) if self.struct_of(ty) is not None)
         self.fn_aliases = {}        # (genukk) local name -> key of an abstract function (`let cost = &self.ukkonen.cost;`)
 
     # ---------------------------------------------------------------- helpers
     def err(self, msg, node=None):
         raise Unsupported(msg, node.pos if node is not None else None)
+
+    def struct_of(self, ty_text):
+        """(genukk) name of the spec's struct a parameter type `&mut State` / `&Myers` / `State` denotes, else None"""
+        t = ty_text.replace("&", " ").split()
+        t = [x for x in t if x != "mut"]
+        return t[0] if len(t) == 1 and t[0] in self.structs else None
+
+    def width_params(self):
+        """(genukk) the width variables of the unit's word types, leading parameters of every generated function"""
+        out = []
+        for w in list(self.unit.get("word_types", {}).values()) + list(self.spec.get("word_types", {}).values()):
+            if w not in out:
+                out.append(w)
+        return out
 
     def ty_of_text(self, s):
         toks = tokenize(s, 0)
@@ -886,6 +938,10 @@ class FnTranslator:
             return TSeq(TTuple([TInt("usize"), self.ty(t.args[0])]))
         if nm in ("Enumerate", "Iter") and len(t.args) == 1:
             return TIter(self.ty(t.args[0]), nm == "Enumerate")
+        if nm in self.word_types and not t.args:
+            return TWord(nm, self.word_types[nm])
+        if nm in self.structs and not t.args:
+            return TTuple([self.ty_of_text(ft) for _, ft in self.structs[nm]])
         if nm in self.generics and not t.args:
             return TAbs(nm, self.generics[nm])
         if nm in self.aliases and not t.args:
@@ -974,7 +1030,20 @@ class FnTranslator:
                 out.append(r)
         elif k == "exprs":
             e = n.e
-            if e.kind == "mcall" and e.name in SEQ_MUTATORS:
+            ckey = None
+            if e.kind == "mcall" and method_key(e) in self.calls:
+                ckey = method_key(e)
+            elif e.kind == "call" and "::".join(e.path) in self.calls:
+                ckey = "::".join(e.path)
+            if ckey is not None:
+                # (genukk) a call that receives `&mut S` arguments assigns the fields of those structs
+                for a, at in zip(e.args, self.calls[ckey]["args"]):
+                    sname = self.struct_of(at)
+                    if sname is not None and at.replace(" ", "").startswith("&mut"):
+                        for v in self.struct_fields_of(a, sname, e):
+                            if v.rust not in decl and v.rust not in out:
+                                out.append(v.rust)
+            elif e.kind == "mcall" and e.name in SEQ_MUTATORS:
                 r = self._lhs_root(e.recv)
                 if r not in decl and r not in out:
                     out.append(r)
@@ -1032,11 +1101,24 @@ class FnTranslator:
                 nm = self_path(n)
                 if nm not in out:
                     out.append(nm)
-            elif n.kind == "mcall" and method_key(n) is not None and method_key(n) in self.calls:
-                for a in self.calls[method_key(n)].get("self_args", []):
+            elif (n.kind == "mcall" and method_key(n) is not None and method_key(n) in self.calls) or \
+                    (n.kind == "call" and "::".join(n.path) in self.calls):
+                f = self.calls[method_key(n) if n.kind == "mcall" else "::".join(n.path)]
+                for a in f.get("self_args", []):
                     if "self." + a not in out:
                         out.append("self." + a)
-                self._reads(n.args, out)
+                for a in f.get("recv_args", []):
+                    if a not in out:
+                        out.append(a)
+                for a, at in zip(n.args, f["args"]):
+                    sname = self.struct_of(at)
+                    if sname is not None:
+                        # (genukk) a struct argument reads the variables that hold its fields
+                        for v in self.struct_fields_of(a, sname, n):
+                            if v.rust not in out:
+                                out.append(v.rust)
+                    else:
+                        self._reads(a, out)
             elif n.kind == "match":
                 self._reads(n.scrut, out)
                 for _, b, _ in n.arms:
@@ -1070,6 +1152,10 @@ class FnTranslator:
             return self.expr(e.e, code, expected)
         if k == "lit":
             t = self.lit_type(e, expected)
+            if isinstance(t, TWord):
+                if e.v not in (0, 1):
+                    self.err("literal %d of the generic word type %s (only 0 and 1 fit every width)" % (e.v, t.name), e)
+                return str(e.v), t
             lo, hi = (-(2 ** (t.w - 1)), 2 ** (t.w - 1) - 1) if t.signed else (0, 2 ** t.w - 1)
             if not (lo <= e.v <= hi):
                 self.err("literal %d does not fit %s" % (e.v, t.name), e)
@@ -1106,13 +1192,19 @@ class FnTranslator:
         if k == "cast":
             target = self.ty(e.ty)
             s, st = self.expr(e.e, code, None if not self.is_lit(e.e) else target)
+            if isinstance(st, TBool) and isinstance(target, TInt) and not isinstance(target, TWord) and self.signed_arith:
+                return "Rs.ofBool %s" % atom(s), target           # (genukk) `cond as i8`: 0 / 1
             if not (isinstance(st, TInt) and isinstance(target, TInt)):
                 self.err("cast `as %r` from %r" % (target, st), e)
+            if isinstance(st, TWord) or isinstance(target, TWord):
+                self.err("cast between %r and %r (a generic word type)" % (st, target), e)
+            if st.signed and target.w > st.w and self.signed_arith:
+                return "Rs.sext %d %d %s" % (st.w, target.w, atom(s)), target     # (genukk) sign extension of the bit pattern
             if st.signed and target.w > st.w:
                 self.err("sign-extending cast %r as %r" % (st, target), e)
             if target.w >= st.w:
                 return s, target               # widening of an unsigned value / same-width reinterpretation of the bit pattern
-            return "Rs.cast %d %s" % (target.w, atom(s)), target
+            return "Rs.cast %s %s" % (target.w, atom(s)), target
         if k == "un":
             if e.op in ("&", "&mut"):
                 return self.expr(e.e, code, expected)
@@ -1128,13 +1220,13 @@ class FnTranslator:
                 if isinstance(t, TBool):
                     return "!" + atom(s), t
                 if isinstance(t, TInt) and not t.signed:
-                    return "Rs.not %d %s" % (t.w, atom(s)), t
+                    return "Rs.not %s %s" % (t.w, atom(s)), t
                 self.err("`!` on %r" % (t,), e)
             if e.op == "-":
                 s, t = self.expr(e.e, code, expected)
                 if isinstance(t, TInt) and t.signed:
                     r = self.tmp()
-                    code.bind(r, ("call", "Rs.neg %d %s" % (t.w, atom(s))))
+                    code.bind(r, ("call", "Rs.neg %s %s" % (t.w, atom(s))))
                     return r, t
                 self.err("unary `-` on %r (only signed bit patterns)" % (t,), e)
         if k == "bin":
@@ -1158,7 +1250,8 @@ class FnTranslator:
             if want is not None and any(isinstance(w, tuple) for w in want):
                 # typed field list (genpm): [(name, type)]; a field initialised with `self` (a reference to the receiver,
                 # whose fields are parameters of the translated functions anyway) is dropped
-                fields = [(f, x) for f, x in e.fields if not (x.kind == "var" and x.name == "self")]
+                fields = [(f, x) for f, x in e.fields
+                          if not (x.kind == "var" and (x.name == "self" or x.name in STRUCT_ROOTS))]
                 if [f for f, _ in fields] != [w[0] for w in want]:
                     self.err("struct literal `%s` has fields %s, the spec (and the theorems) expect %s in this order"
                              % (e.name, ",".join(f for f, _ in fields), ",".join(w[0] for w in want)), e)
@@ -1221,7 +1314,11 @@ class FnTranslator:
                 r, rt = self.expr(e.r, code, lt)
             if lt != rt:
                 self.err("comparison of %r with %r" % (lt, rt), e)
-            if isinstance(lt, TInt) and lt.signed:
+            if isinstance(lt, TInt) and lt.signed and self.signed_arith and op in ("<", ">", "<=", ">="):
+                # (genukk) comparison of signed values through their integer value
+                return "decide (Rs.toInt %d %s %s Rs.toInt %d %s)" % (
+                    lt.w, atom(l), {"<": "<", ">": ">", "<=": "≤", ">=": "≥"}[op], lt.w, atom(r)), TBool()
+            if isinstance(lt, TInt) and lt.signed and not (self.signed_arith and op in ("==", "!=")):
                 self.err("comparison of signed values (only bit operations are translated on signed types)", e)
             if op in ("==", "!="):
                 if not isinstance(lt, (TInt, TBool, TSeq)):
@@ -1237,7 +1334,7 @@ class FnTranslator:
             if not (isinstance(lt, TInt) and isinstance(rt, TInt)) or lt.signed or rt.signed:
                 self.err("shift on %r by %r" % (lt, rt), e)
             t = self.tmp()
-            code.bind(t, ("call", "Rs.%s %d %s %s" % ("shl" if op == "<<" else "shr", lt.w, atom(l), atom(r))))
+            code.bind(t, ("call", "Rs.%s %s %s %s" % ("shl" if op == "<<" else "shr", lt.w, atom(l), atom(r))))
             return t, lt
         if self.is_lit(e.l) and not self.is_lit(e.r):
             r0 = Code()
@@ -1252,17 +1349,22 @@ class FnTranslator:
             self.err("`%s` on %r and %r" % (op, lt, rt), e)
         if op in ("&", "|", "^"):
             return "%s %s %s" % (atom(l), {"&": "&&&", "|": "|||", "^": "^^^"}[op], atom(r)), lt
+        if lt.signed and self.signed_arith and op in ("+", "-"):
+            # (genukk) checked signed addition / subtraction on two's-complement bit patterns
+            t = self.tmp()
+            code.bind(t, ("call", "Rs.%s %d %s %s" % ("addI" if op == "+" else "subI", lt.w, atom(l), atom(r))))
+            return t, lt
         if lt.signed:
             self.err("arithmetic `%s` on the signed type %r (only bit operations are translated on signed types)" % (op, lt), e)
         if op in ("/", "%") and self.is_lit(e.r) and int(r) != 0:
             return "%s %s %s" % (atom(l), op, r), lt
         t = self.tmp()
         if op == "+":
-            code.bind(t, ("call", "Rs.add %d %s %s" % (lt.w, atom(l), atom(r))))
+            code.bind(t, ("call", "Rs.add %s %s %s" % (lt.w, atom(l), atom(r))))
         elif op == "-":
             code.bind(t, ("call", "Rs.sub %s %s" % (atom(l), atom(r))))
         elif op == "*":
-            code.bind(t, ("call", "Rs.mul %d %s %s" % (lt.w, atom(l), atom(r))))
+            code.bind(t, ("call", "Rs.mul %s %s %s" % (lt.w, atom(l), atom(r))))
         elif op == "/":
             code.bind(t, ("call", "Rs.div %s %s" % (atom(l), atom(r))))
         elif op == "%":
@@ -1286,6 +1388,8 @@ class FnTranslator:
             # `self.kmp.delta(q, a)`: a translated method of a struct reachable from `self`; the fields of that struct
             # it reads (`self_args` in the spec) are passed first (genpm)
             f = self.calls[mkey]
+            if any(self.struct_of(a) is not None for a in f["args"]) or f.get("recv_args") or f.get("extra"):
+                return self.struct_call(mkey, f, e.args, code, e)
             if len(f["args"]) != len(e.args):
                 self.err("`%s` called with %d arguments, the spec says %d" % (mkey, len(e.args), len(f["args"])), e)
             parts = [self.lookup("self." + a, e).lean for a in f.get("self_args", [])]
@@ -1298,6 +1402,25 @@ class FnTranslator:
             t = self.tmp()
             code.bind(t, ("call", f["lean"] + "".join(" " + p for p in parts)))
             return t, self.ty_of_text(f["ret"])
+        if nm == "unwrap" and not e.args and e.recv.kind == "mcall" and e.recv.name in ("to_usize", "to_u64") and not e.recv.args:
+            # (genukk) `x.to_usize().unwrap()` (num_traits::ToPrimitive): the value if it fits, else `None` → panic
+            s_, t_ = self.expr(e.recv.recv, code)
+            if not isinstance(t_, TInt) or t_.signed:
+                self.err("`.%s()` on %r" % (e.recv.name, t_), e)
+            t = self.tmp()
+            code.bind(t, ("call", "Rs.cvt 64 %s" % atom(s_)))
+            return t, TInt("usize" if e.recv.name == "to_usize" else "u64")
+        if nm == "unwrap" and not e.args and e.recv.kind == "call" and e.recv.path[-1] in ("from_usize", "from_u64") \
+                and len(e.recv.args) == 1 and self.type_of_path(e.recv.path[:-1]) is not None:
+            # (genukk) `D::from_usize(x).unwrap()` (num_traits::FromPrimitive)
+            target = self.type_of_path(e.recv.path[:-1])
+            src_t = TInt("usize" if e.recv.path[-1] == "from_usize" else "u64")
+            s_, t_ = self.expr(e.recv.args[0], code, src_t)
+            if t_ != src_t:
+                self.err("`%s` of %r" % (e.recv.path[-1], t_), e)
+            t = self.tmp()
+            code.bind(t, ("call", "Rs.cvt %s %s" % (target.w, atom(s_))))
+            return t, target
         if nm == "len" and not e.args:
             r, t = self.expr(e.recv, code)
             if not isinstance(t, TSeq):
@@ -1316,12 +1439,12 @@ class FnTranslator:
             if lt != rt or not isinstance(lt, TInt) or lt.signed:
                 self.err("`%s` on %r and %r" % (nm, lt, rt), e)
             fn = {"wrapping_add": "wrappingAdd", "wrapping_sub": "wrappingSub", "wrapping_mul": "wrappingMul"}[nm]
-            return "Rs.%s %d %s %s" % (fn, lt.w, atom(l), atom(r)), lt
+            return "Rs.%s %s %s %s" % (fn, lt.w, atom(l), atom(r)), lt
         if nm == "wrapping_neg" and not e.args:
             l, lt = self.expr(e.recv, code, expected)
             if not isinstance(lt, TInt):
                 self.err("`wrapping_neg` on %r" % (lt,), e)
-            return "Rs.wrappingNeg %d %s" % (lt.w, atom(l)), lt
+            return "Rs.wrappingNeg %s %s" % (lt.w, atom(l)), lt
         if nm in ("borrow", "clone", "to_owned") and not e.args and nm == "borrow":
             return self.expr(e.recv, code, expected)
         if nm in ("into_iter", "iter") and not e.args:
@@ -1374,6 +1497,17 @@ class FnTranslator:
             if lt != rt or not isinstance(lt, TInt) or lt.signed:
                 self.err("`%s` on %r and %r" % (e.path[-1], lt, rt), e)
             return "Nat.%s %s %s" % (e.path[-1], atom(l), atom(r)), lt
+        if len(e.path) >= 2 and e.path[-1] in ("zero", "one", "max_value", "min_value") and not e.args \
+                and self.type_of_path(e.path[:-1]) is not None:
+            # (genukk) `T::zero()`, `T::one()`, `T::max_value()` of num_traits on an unsigned integer type
+            t = self.type_of_path(e.path[:-1])
+            if e.path[-1] in ("zero", "min_value"):
+                return "0", t
+            if e.path[-1] == "one":
+                return "1", t
+            return ("Rs.maxVal %s" % t.w if isinstance(t, TWord) else str(2 ** t.w - 1)), t
+        if path in self.calls and len(e.path) >= 2:
+            return self.struct_call(path, self.calls[path], e.args, code, e)
         if path in self.absfns:
             f = self.absfns[path]
             if len(f["args"]) != len(e.args):
@@ -1413,6 +1547,62 @@ class FnTranslator:
             code.bind(t, ("call", f["lean"] + "".join(" " + p for p in parts)))
             return t, self.ty_of_text(f["ret"])
         self.err("call of `%s` (not declared in the translation spec)" % path, e)
+
+    def type_of_path(self, path):
+        """(genukk) `T` / `T::DistType` / `usize` as the prefix of an associated-function path → the unsigned integer type"""
+        key = "::".join(path)
+        if key in self.type_paths:
+            return self.ty_of_text(self.type_paths[key])
+        if len(path) == 1 and path[0] in self.word_types:
+            return TWord(path[0], self.word_types[path[0]])
+        if len(path) == 1 and path[0] in WIDTH and path[0][0] == "u":
+            return TInt(path[0])
+        return None
+
+    def struct_fields_of(self, arg, sname, node):
+        """(genukk) the variables that hold the fields of the struct value `arg` (`state`, `&mut self.state`)"""
+        while arg.kind == "paren" or (arg.kind == "un" and arg.op in ("&", "&mut")):
+            arg = arg.e
+        if arg.kind == "var" and arg.name in STRUCT_ROOTS:
+            root = arg.name
+        elif arg.kind == "field" and self_path(arg) is not None:
+            root = self_path(arg)
+        else:
+            self.err("argument of struct type `%s` is not a parameter or a `self` field whose fields the spec lists" % sname, node)
+        return [self.lookup("%s.%s" % (root, f), node) for f, _ in self.structs[sname]]
+
+    def struct_call(self, key, f, args, code, node, as_stmt=False):
+        """(genukk) call of another translated function that takes struct arguments: a `&mut S` argument passes the fields of
+        the struct and gets all of them back (in field order, before the declared return value); `&S` passes the fields"""
+        if len(f["args"]) != len(args):
+            self.err("`%s` called with %d arguments, the spec says %d" % (key, len(args), len(f["args"])), node)
+        parts = list(f.get("extra", []))
+        parts += [self.lookup(a, node).lean for a in f.get("recv_args", [])]
+        parts += [self.lookup("self." + a, node).lean for a in f.get("self_args", [])]
+        outs = []
+        for a, at in zip(args, f["args"]):
+            sname = self.struct_of(at)
+            if sname is not None:
+                vs = self.struct_fields_of(a, sname, node)
+                parts += [v.lean for v in vs]
+                if at.replace(" ", "").startswith("&mut"):
+                    outs += vs
+                continue
+            want = self.ty_of_text(at)
+            s_, t_ = self.expr(a, code, want)
+            if t_ != want:
+                self.err("argument of `%s` has type %r, the spec says %r" % (key, t_, want), a)
+            parts.append(atom(s_))
+        ret = self.ty_of_text(f["ret"]) if f.get("ret") else None
+        call = f["lean"] + "".join(" " + p for p in parts)
+        if ret is None:
+            if not as_stmt:
+                self.err("`%s` returns no value" % key, node)
+            code.bind(tuple_pat([v.lean for v in outs]) if outs else "_", ("call", call))
+            return None, TUnit()
+        t = self.tmp()
+        code.bind(tuple_pat([v.lean for v in outs] + [t]), ("call", call))
+        return t, ret
 
     def macro(self, e, code, expected):
         if e.name == "vec" and e.sep == ";" and len(e.args) == 2:
@@ -1712,6 +1902,12 @@ class FnTranslator:
         self.err("method `.%s(…)` as a statement is outside the translated subset" % nm, e)
 
     def expr_stmt(self, e, code):
+        if e.kind == "mcall" and method_key(e) in self.calls and not self.calls[method_key(e)].get("ret"):
+            self.struct_call(method_key(e), self.calls[method_key(e)], e.args, code, e, as_stmt=True)     # (genukk)
+            return
+        if e.kind == "call" and "::".join(e.path) in self.calls and not self.calls["::".join(e.path)].get("ret"):
+            self.struct_call("::".join(e.path), self.calls["::".join(e.path)], e.args, code, e, as_stmt=True)
+            return
         if e.kind == "mcall" and (e.name in ("clear", "extend", "resize", "truncate")
                                   or (e.name == "push" and e.recv.kind == "index")):
             return self.seq_mutation(e, code)
@@ -1807,7 +2003,8 @@ class FnTranslator:
 
     def helper_header(self, name, caps):
         params = "".join(" (%s : %s)" % (v.lean, v.ty.lean()) for v in caps)
-        absf = "".join(" (%s : %s)" % (f, self.abs_sig(f)) for f in self.absfn_params())
+        absf = "".join(" (%s : Nat)" % w for w in self.width_params()) + \
+            "".join(" (%s : %s)" % (f, self.abs_sig(f)) for f in self.absfn_params())
         return "def %s%s%s" % (name, absf, params)
 
     def absfn_params(self):
@@ -1823,7 +2020,7 @@ class FnTranslator:
         raise KeyError(lean)
 
     def abs_args(self):
-        return "".join(" " + f for f in self.absfn_params())
+        return "".join(" " + w for w in self.width_params()) + "".join(" " + f for f in self.absfn_params())
 
     def while_(self, s, code):
         self.n_while += 1
@@ -2348,8 +2545,27 @@ class FnTranslator:
             v = Var("self." + nm, lean_name(nm), t)
             self.scopes[0]["self." + nm] = v
             params.append(v)
+        struct_mut = []      # (genukk) fields of `&mut S` parameters: always returned, assigned or not
+        n_unused = 0
         for nm, ty in sp["params"]:
+            sname = self.struct_of(ty)
+            if sname is not None:
+                # (genukk) a parameter of a struct type is passed field by field (`state.pv` → `pv`)
+                for fnm, fty in self.structs[sname]:
+                    key = "%s.%s" % (nm, fnm)
+                    v = Var(key, self.fresh_lean(fnm), self.ty_of_text(fty))
+                    self.scopes[0][key] = v
+                    params.append(v)
+                    if ty.replace(" ", "").startswith("&mut"):
+                        struct_mut.append(key)
+                continue
             t = self.ty_of_text(ty)
+            if nm == "_":
+                n_unused += 1
+                v = Var("_%d" % n_unused, "unused%d" % n_unused, t)
+                self.scopes[0]["_%d" % n_unused] = v
+                params.append(v)
+                continue
             v = Var(nm, self.fresh_lean(nm), t)
             self.scopes[0][nm] = v
             params.append(v)
@@ -2360,13 +2576,14 @@ class FnTranslator:
         # ... and so are `&mut` parameters the body writes to (after the fields, in parameter order)
         all_assigned = self.assigned(body)
         mut_params = [nm for nm, ty in sp["params"] if ty.replace(" ", "").startswith("&mut")]
-        assigned_self = [a for a in all_assigned if a.startswith("self.") or a in mut_params]
+        assigned_self = [a for a in all_assigned if a.startswith("self.") or a in mut_params] + struct_mut
         ret_fields = [v for v in params if v.rust in assigned_self]
         self.ret, self.ret_fields = ret, ret_fields
         self.scopes.append({})
         out_tys = self.seq(body.stmts, body.tail, code, body)
         self.scopes.pop()
-        absf = "".join(" (%s : %s)" % (f, self.abs_sig(f)) for f in self.absfn_params())
+        absf = "".join(" (%s : Nat)" % w for w in self.width_params()) + \
+            "".join(" (%s : %s)" % (f, self.abs_sig(f)) for f in self.absfn_params())
         sig = "def %s%s%s : Res %s :=" % (self.lean_fn, absf,
                                          "".join(" (%s : %s)" % (v.lean, v.ty.lean()) for v in params),
                                          paren_ty(tuple_ty(out_tys)))
@@ -2539,6 +2756,8 @@ def self_path(e):
         e = e.e
     if e.kind == "var" and e.name == "self" and parts:
         return "self." + ".".join(reversed(parts))
+    if e.kind == "var" and e.name in STRUCT_ROOTS and parts:
+        return e.name + "." + ".".join(reversed(parts))      # (genukk) `state.pv` on a parameter of a struct type
     return None
 
 
@@ -2561,6 +2780,8 @@ def method_key(e):
     r = e.recv
     if r.kind == "var" and r.name == "self":
         return "self." + e.name
+    if r.kind == "var" and r.name in STRUCT_ROOTS:
+        return r.name + "." + e.name
     if r.kind == "field" and self_path(r) is not None:
         return self_path(r) + "." + e.name
     return None
@@ -2591,6 +2812,7 @@ def contains_kind(n, kinds, stop=()):
 
 
 LOOP_KINDS = ("while", "loop", "for")
+STRUCT_ROOTS = set()      # (genukk) parameters of a struct type of the function being translated (set by FnTranslator)
 # (genukk) methods that modify the `Vec` they are called on (the receiver may be an element `v[i]` of a vector of vectors)
 SEQ_MUTATORS = ("push", "clear", "extend", "resize", "truncate")
 
@@ -2628,6 +2850,26 @@ def translate_unit(src, unit, fail):
         if f.get("toplevel"):
             rx = r"(?m)^" + rx          # the item at column 0 (a function of the same name inside a nested `mod` is another one) (genpm)
         ms = list(re.finditer(rx, src.code))
+        if f.get("within"):
+            # (genukk, as in rs2lean_fm.py) the function is looked for inside the single item (an `impl` block) with this header
+            ws = list(re.finditer(header_regex(f["within"]), src.code))
+            if len(ws) != 1:
+                fail("%s: %s: expected exactly one item `%s`, found %d" % (rel, what, f["within"][:100], len(ws)))
+            lo = ws[0].end() - 1
+            depth, hi = 0, None
+            for i in range(lo, len(src.code)):
+                if src.code[i] == "{":
+                    depth += 1
+                elif src.code[i] == "}":
+                    depth -= 1
+                    if depth == 0:
+                        hi = i
+                        break
+            ms = [m for m in ms if hi is not None and lo < m.start() < hi]
+            if len(ms) == 1:
+                rx = "(?s)(?<=^.{%d})" % ms[0].start() + rx      # the same header, at this position only
+                if len(list(re.finditer(rx, src.code))) != 1:
+                    fail("%s: %s: internal: cannot pin the header inside `%s`" % (rel, what, f["within"][:60]))
         if len(ms) != 1:
             fail("%s: %s: expected exactly one function with the header `%s`, found %d (signature changed, renamed or "
                  "restructured: the translation spec in tools/rs2lean.py pins the header)" % (rel, what, f["header"], len(ms)))
@@ -2917,6 +3159,71 @@ unit(name="SrcUkkonen", props="property C09", file="src/pattern_matching/ukkonen
                      # `while D[col][lastk] > k { lastk -= 1 }`: `lastk` strictly decreases (and stops at cell 0, which is 0)
                      fuel=["lastk + 1"], shadow_fresh=True,
                      params=[], ret="Option<(usize, usize)>", theorem="RbV.Thm.GenSrcUkkonen.next_eq_model")])
+
+
+# `Myers<T: BitVec>` (single word): the generic word type `T` is a `Nat` below `2^w` with `w` a parameter of every generated
+# function (`Rs.wrappingAdd w`, `Rs.not w`, `Rs.shl w`, `Rs.maxVal w`); `T::DistType` likewise with width `wd`.  A `State<T, D>`
+# is passed field by field (`pv`, `mv`, `dist`).  Semantics of the signed `i8` step of the `dist` update: RsSemWord.lean.
+MYERS_WORDS = {"T": "w", "D": "wd", "DistType": "wd"}
+MYERS_PATHS = {"T::DistType": "DistType", "D": "D", "T": "T"}
+MYERS_STRUCTS = {"State": [("pv", "T"), ("mv", "T"), ("dist", "DistType")],
+                 "Myers": [("peq", "[T; 256]"), ("bound", "T"), ("m", "DistType")]}
+
+unit(name="SrcMyersState", props="properties C09, C10", file="src/pattern_matching/myers/myers_impl.rs",
+     imports=["RbV.Basic.RsSemWord"], word_types=MYERS_WORDS, type_paths=MYERS_PATHS, structs=MYERS_STRUCTS,
+     functions=[dict(name="State::init", lean="init", header="pub fn init(m: D) -> Self",
+                     params=[("m", "D")], ret="State",
+                     struct_fields={"State": [("pv", "T"), ("mv", "T"), ("dist", "D")]},
+                     theorem="RbV.Thm.GenSrcMyersSimple.init_eq_model"),
+                dict(name="State::known_dist", lean="knownDist", header="pub fn known_dist(&self) -> Option<D>",
+                     self_fields=[("dist", "D")], params=[], ret="Option<D>",
+                     theorem="RbV.Thm.GenSrcMyersSimple.knownDist_eq")])
+
+unit(name="SrcMyersSimple", props="properties C09, C10", file="src/pattern_matching/myers/simple.rs",
+     imports=["RbV.Basic.RsSemWord", "RbV.Gen.SrcMyersState"], word_types=MYERS_WORDS, type_paths=MYERS_PATHS,
+     structs=MYERS_STRUCTS, signed_arith=True,
+     functions=[dict(name="Myers::_step", lean="step_", header="fn _step(&self, state: &mut State<T, T::DistType>, a: u8)",
+                     self_fields=[("peq", "[T; 256]"), ("bound", "T")],
+                     params=[("state", "&mut State"), ("a", "u8")], ret=None,
+                     theorem="RbV.Thm.GenSrcMyersSimple.step_eq_model"),
+                dict(name="Myers::step", lean="step",
+                     header="fn step(&self, state: &mut State<T, T::DistType>, a: u8, _: T::DistType)",
+                     self_fields=[("peq", "[T; 256]"), ("bound", "T")],
+                     params=[("state", "&mut State"), ("a", "u8"), ("_", "DistType")], ret=None,
+                     calls={"self._step": dict(lean="step_", extra=["w", "wd"], self_args=["peq", "bound"],
+                                               args=["&mut State", "u8"], ret=None)},
+                     theorem="RbV.Thm.GenSrcMyersSimple.step_eq_model"),
+                dict(name="Myers::initial_state", lean="initialState",
+                     header="fn initial_state(&self, m: T::DistType, _: T::DistType) -> State<T, T::DistType>",
+                     params=[("m", "DistType"), ("_", "DistType")], ret="State",
+                     calls={"State::init": dict(lean="RbV.Gen.SrcMyersState.init", extra=["w", "wd"], args=["DistType"], ret="State")},
+                     theorem="RbV.Thm.GenSrcMyersSimple.init_eq_model")])
+
+# `Matches::new` / `Matches::next` are written once, inside the macro `impl_myers!` of myers_impl.rs (`$DistType`, `$Myers`,
+# `$State` are its parameters); this unit reads them at the instance of simple.rs: `myers.step` / `myers.initial_state` are the
+# translated functions of `SrcMyersSimple`, `state.known_dist()` that of `SrcMyersState`.
+unit(name="SrcMyersMatches", props="properties C09, C10", file="src/pattern_matching/myers/myers_impl.rs",
+     imports=["RbV.Basic.RsSemWord", "RbV.Gen.SrcMyersState", "RbV.Gen.SrcMyersSimple"],
+     word_types=MYERS_WORDS, type_paths=MYERS_PATHS, structs=MYERS_STRUCTS,
+     functions=[dict(name="Matches::new", lean="new", header="fn new(myers: &'a Myers<T>, text: I, max_dist: $DistType) -> Self",
+                     within="impl<'a, T, C, I> Matches<'a, T, C, I> where T: BitVec, C: Borrow<u8>, I: Iterator<Item = C>,",
+                     params=[("myers", "&Myers"), ("text", "&[u8]"), ("max_dist", "DistType")],
+                     ret="(State, Enumerate<u8>, DistType)",
+                     struct_fields={"Matches": [("state", "State"), ("text", "Enumerate<u8>"), ("max_dist", "DistType")]},
+                     calls={"myers.initial_state": dict(lean="RbV.Gen.SrcMyersSimple.initialState", extra=["w", "wd"],
+                                                        args=["DistType", "DistType"], ret="State")},
+                     theorem="RbV.Thm.GenSrcMyersSimple.new_eq_model"),
+                dict(name="Matches::next", lean="next", header="fn next(&mut self) -> Option<(usize, $DistType)>",
+                     within="impl<'a, T, C, I> Iterator for Matches<'a, T, C, I> where T: BitVec, C: Borrow<u8>, I: Iterator<Item = C>,",
+                     self_fields=[("myers.peq", "[T; 256]"), ("myers.bound", "T"), ("state.pv", "T"), ("state.mv", "T"),
+                                  ("state.dist", "DistType"), ("text", "Enumerate<u8>"), ("max_dist", "DistType")],
+                     params=[], ret="Option<(usize, DistType)>",
+                     calls={"self.myers.step": dict(lean="RbV.Gen.SrcMyersSimple.step", extra=["w", "wd"],
+                                                    self_args=["myers.peq", "myers.bound"],
+                                                    args=["&mut State", "u8", "DistType"], ret=None),
+                            "self.state.known_dist": dict(lean="RbV.Gen.SrcMyersState.knownDist", extra=["w", "wd"],
+                                                          self_args=["state.dist"], args=[], ret="Option<DistType>")},
+                     theorem="RbV.Thm.GenSrcMyersSimple.next_eq_model")])
 
 
 # ================================================================================================== self-test
